@@ -14,6 +14,7 @@ RULE = (
     "function in positional / keyword / mixed style (also with keyword-only and positional-only hinted parameters), with defaulted extra parameters of hashable and unhashable types; one annotation object behind a plain hint and a tuple hint (length one included) of the same call; the body counts its "
     "calls and records the identity of its arguments and of its result. non-trivial = distinct line judged 'conforms, ordered' by the oracle"
 )
+RULE += " Also: named literals inside literal-only annotations referred to later; providers whose method lives on the instance; every numpy spelling of the shared dtypes (C type codes, byte order, aliases); kwrev and forward-reference + positional-only call styles."
 
 DEFAULTS = ["[]", "{}", "None", "3", "(1, 2)", "'s'", "{1, 2}", "[[1], {}]"]
 
